@@ -15,7 +15,7 @@ ANCHORS = ["src/pylife/strength/meanstress.py", "src/pylife/stress/collective/lo
 SHARDS = {"quick": 8, "thorough": 16}
 WATCHDOG = {"quick": 1200, "thorough": 3300}
 REQUIRED_CLASSES = {t: ["goal:R=-inf", "goal:R=-1", "goal:R=0", "goal:R>1", "goal:0<R<1", "goal:R<-1", "cycle:R>1", "cycle:R<0",
-                        "cycle:0<R<1", "cycle:on_R=0", "cycle:on_R=-1", "cycle:on_R=-inf", "cycle:on_R12", "diagram:fkm_goodman", "fkm_goodman:M2=0<M", "fkm_goodman:M2=M",
+                        "cycle:0<R<1", "cycle:on_R=0", "cycle:on_R=-1", "cycle:on_R=-inf", "cycle:on_R12", "diagram:fkm_goodman", "fkm_goodman:M2=0<M", "fkm_goodman:M2=M", "diagram:from_dict_rows_rotated", "cycle:upper=-0.0",
                         "diagram:five_segment", "five_segment:M4!=0", "matrix:from_to", "matrix:range_mean",
                         "matrix:extra_level"]
                     for t in ("quick", "thorough")}
@@ -151,6 +151,24 @@ def run_case(case, ctx):
         def plain(a, m, R):
             return np.asarray(MS.five_segment_correction(np.asarray(a, dtype=float), np.asarray(m, dtype=float),
                                                          *[case[k] for k in keys], R))
+    # the same diagram given segment by segment, rows in any order (HaighDiagram.from_dict)
+    if rng.random() < 0.35:
+        if case["kind"] == "goodman":
+            segs = [((1.0, math.inf), 0.0), ((-math.inf, 0.0), case["M"]), ((0.0, 1.0), case["M2"])]
+        else:
+            segs = [((1.0, math.inf), case["M4"]), ((-math.inf, 0.0), case["M0"]), ((0.0, case["R12"]), case["M1"]),
+                    ((case["R12"], case["R23"]), case["M2"]), ((case["R23"], 1.0), case["M3"])]
+        # the diagram's own validation accepts the rows as a chain (each interval starts where the previous one ends, R = inf
+        # continuing at R = -inf): every rotation of the chain is a valid way to write the same diagram
+        r0 = int(rng.integers(1, len(segs)))
+        order = list(range(r0, len(segs))) + list(range(r0))
+        hd = MS.HaighDiagram.from_dict({segs[i][0]: segs[i][1] for i in order})
+        ctx.tag("diagram:from_dict_rows_rotated")
+    # a cycle whose upper load is zero, written as 0.0 and as -0.0 (e.g. after scaling by -1): the same cycle
+    a0 = float(amp[0])
+    z = [hd.transform(pd.DataFrame({"from": [-2 * a0], "to": [zero]}), R2)["range"].to_numpy() for zero in (0.0, -0.0)]
+    ctx.tag("cycle:upper=-0.0")
+    ctx.check("negative_zero_upper==zero_upper", _close(z[0], z[1]), observed=z[1], expected=z[0], detail={"amplitude": a0, "R_goal": R2})
     # domain: the exact iso-damage amplitude must stay positive along the whole path (for R1, R2 and R1->R2)
     o1 = [H.transform(a, m, sectors, R1) for a, m in zip(amp, mean)]
     o2 = [H.transform(a, m, sectors, R2) for a, m in zip(amp, mean)]
@@ -183,9 +201,9 @@ def run_case(case, ctx):
         ctx.check("fkm_goodman==iso_damage_oracle", _close(g1, o1) and _close(g2, o2), observed={"R1": g1, "R2": g2},
                   expected={"R1": o1, "R2": o2}, detail={"amp": amp, "mean": mean})
     else:
-        ctx.ok("five_segment_vs_oracle_logged")
-        if not (_close(g1, o1) and _close(g2, o2)):
-            ctx.skip("five_segment_differs_from_geometric_oracle(logged,not_judged)")
+        # judged since the unbounded-segment fix (30361b0): the five-segment correction follows the same iso-damage lines
+        ctx.check("five_segment==iso_damage_oracle", _close(g1, o1) and _close(g2, o2), observed={"R1": g1, "R2": g2},
+                  expected={"R1": o1, "R2": o2}, tags=sorted(set(mech(R1) + mech(R2))), detail={"amp": amp, "mean": mean})
     # path independence, idempotence, fixed point through the DataFrame interface
     df = pd.DataFrame({"range": 2 * amp, "mean": mean})
     t1 = hd.transform(df, R1)
